@@ -7,4 +7,8 @@ CLAIMS = {
   "text": "Theorems (Coq, no axioms) about the executable one-access-per-step model of the lock-free ring: for every schedule, every operation sequence, any number of threads and any N>0 the values yielded are exactly a prefix of the values accepted (exactly once, in order, nothing invented), pending = accepted - yielded, every response belongs to its call (a rejected payload is handed back unchanged), plain slot accesses are exclusive. The model is tied to the code on every run by lock-step equality of access/result traces on generated programs and schedules.",
   "note": "Trusted: Coq kernel + vm_compute, the hand-written model, the harness and the `verif` shim, SC interleaving semantics. Partial: proved for the ring under the movable atomic Uni channel; the other Uni kinds are covered as their models land (see evidence suites).",
  },
+ "C02": {
+  "text": "Theorems (Coq, no axioms): lock-free ring - FIFO (yielded = prefix of accepted, in linearisation order), capacity (tail-head <= N), a 'full' answer is justified by N slot ids each accepted-unreleased or held by another send in progress (coverage invariant), an 'empty' answer is exact unless another consumer holds a lower un-receded reservation; that exception is a proven refutation (C02_ring_empty_refuted, finding F5, listed as known finding). Full-sync ring: mutual exclusion, capacity, EXACT full/empty. Tied to the code by lock-step trace equality on the two rings and the two movable Uni channels every run.",
+  "note": "Trusted: Coq kernel + vm_compute, hand-written models, harness + verif shim, SC semantics; the oracle's reading of 'full at some instant' is the property's own enumeration of slot holders. The crossbeam / zero-copy Uni channels are not yet in a lock-step suite.",
+ },
 }
